@@ -3,6 +3,7 @@
 -/
 import SV.TxCache.SelProofs
 import SV.TxCache.OrderProofs
+import SV.TxCache.ReachableProofs
 namespace SV.Props.C02
 open SV SV.TxCache
 
@@ -49,5 +50,18 @@ theorem legacy_gas_counterexample :
       let r := selectFromBunches Variant.legacy s q bunches
       (r.1.map (·.gasLimit)).sum ≠ r.2 ∧ (r.1.map (·.gasLimit)).sum > q.gasReq :=
   SV.TxCache.legacy_gas_counterexample
+
+/-- END-TO-END: every clause of the property for the selection from the pool reached by ANY operation history -/
+theorem constraints_of_every_reachable_pool (U : Bytes → Tx) (cfg : Config) (ops : List Op)
+    (hw : ∀ t, Op.add t ∈ ops → WfTx U t) (s : Session) (q : SelParams) :
+    let p := ops.foldl applyOp (Pool.init cfg)
+    let r := select Variant.current p s q
+    r.1.Nodup ∧
+    (∀ t ∈ r.1, (∃ snd l, (snd, l) ∈ p.lists ∧ t ∈ l) ∧ alookup t.hash p.byHash = some t) ∧
+    r.1.length ≤ q.maxNum ∧
+    (r.1.map (·.gasLimit)).sum = r.2 ∧ r.2 ≤ q.gasReq ∧
+    (∀ t ∈ r.1, s.badGuard t = false) ∧
+    (∀ i (hi : i < r.1.length), committed (r.1.take i) (r.1[i]).payer + (r.1[i]).fee ≤ s.balance (r.1[i]).payer) :=
+  reachable_selection_constraints U cfg ops hw s q
 
 end SV.Props.C02
